@@ -5,8 +5,10 @@ import replica
 def run(ctx, replay):
     # family rewards: histories over the whole reward schedule (forty and more blocks), where what a node keeps in memory
     # between blocks (the reward calculator's cached amount) matters most
-    replica.run(ctx, "C08", replay, families=replica.FAMILIES + ["rewards"])
+    # family allegset: guided histories with guilty verdicts (a penalty is decided in one block and carried out in later ones:
+    # whatever is remembered about it between blocks has to survive a restart)
+    replica.run(ctx, "C08", replay, families=replica.FAMILIES + ["rewards", "allegset"])
     ctx.cov.setdefault("rule", RULE)
 
 
-RULE = "per history three twins that die at 1-3 call boundaries (after BeginBlock, after the k-th DeliverTx, after EndBlock, after Commit) and are restarted in a new process from the same data directory; Info must report the last completed commit and all later results must equal the reference's; nine families, among them long histories over the whole reward schedule"
+RULE = "per history three twins that die at 1-3 call boundaries (after BeginBlock, after the k-th DeliverTx, after EndBlock, after Commit) and are restarted in a new process from the same data directory; Info must report the last completed commit and all later results must equal the reference's; twelve families, among them long histories over the whole reward schedule and guided histories with allegation verdicts"
